@@ -61,6 +61,17 @@ fn from_roots(roots: &[f64]) -> Vec<f64> {
     c
 }
 
+/// Calls of *other* forms at the same argument.  Every evaluate is a pure function: its result must not depend
+/// on what was evaluated before it (a shared cache or scratch slot would show here).
+pub fn disturb(v: f64) {
+    use std::hint::black_box;
+    black_box(IntOfLogPoly4 { k: 0.5, coeffs: [1.0, -2.0, 0.25, 3.0], u: 1.5 }.evaluate(v));
+    black_box(IntOfLog { k: 1.0, poly: Poly2([1.0, 2.0, 3.0]) }.evaluate(v));
+    black_box(Log(Poly3([1.0, -1.0, 0.5, 2.0])).evaluate(v));
+    black_box(Poly4([1.0, 2.0, 3.0, 4.0, 5.0]).evaluate(v));
+    black_box(PolyN(vec![1.0, 2.0]).evaluate(v));
+}
+
 // ===================================================================== C01 eval
 
 pub fn drive_eval(seed: u64, n: usize, sink: &mut Sink) -> usize {
@@ -97,6 +108,9 @@ pub fn drive_eval(seed: u64, n: usize, sink: &mut Sink) -> usize {
                     5 => (coeffs(&mut rng, len), *rng.pick(&[1.0, -1.0, 2.0, 0.5, -0.5, 1.0f64.next_up(), f64::MIN_POSITIVE, 1e-160, -1e-160])),
                     _ => (coeffs(&mut rng, len), rng.float_exp(-6, 6)),
                 };
+                if it % 2 == 1 {
+                    disturb(x);
+                }
                 let y = poly_eval(&c, x);
                 if len > 2 && x != 0.0 {
                     nontrivial += 1;
@@ -138,6 +152,9 @@ pub fn drive_eval(seed: u64, n: usize, sink: &mut Sink) -> usize {
                     6 => rng.unit() * 1e-3 + 1e-6,
                     _ => rng.float_exp(1, 60).abs(),
                 };
+                if it % 3 != 0 {
+                    disturb(v);
+                }
                 let y = if fixed { log_poly_eval(&c, v) } else { Log(PolyN(c.clone())).evaluate(v) };
                 nontrivial += 1;
                 emit(sink, if fixed { "log" } else { "logn" }, &c, v, y);
@@ -266,6 +283,17 @@ impl OpCov {
     }
 }
 
+/// a second operand for binary operators: sometimes the first one itself, its negation, or the first one with
+/// every number moved by at most one ulp (results of 0 or of one ulp: "close enough, call it zero" shortcuts)
+fn second_operand<T: Form>(rng: &mut Rng, a: &[f64]) -> Vec<f64> {
+    match rng.below(10) {
+        0 => a.to_vec(),
+        1 => a.iter().map(|x| -x).collect(),
+        2 | 3 => a.iter().map(|&x| match rng.below(3) { 0 => x.next_up(), 1 => x.next_down(), _ => x }).collect(),
+        _ => flat_of::<T>(rng),
+    }
+}
+
 fn flat_of<T: Form>(rng: &mut Rng) -> Vec<f64> {
     let n = T::arity().unwrap_or_else(|| rng.below(7) as usize);
     match rng.below(14) {
@@ -282,7 +310,7 @@ macro_rules! ops_poly {
     ($T:ty, $rng:expr, $sink:expr, $cov:expr) => {{
         let ty = <$T as Form>::name();
         let a = flat_of::<$T>($rng);
-        let b = flat_of::<$T>($rng);
+        let b = second_operand::<$T>($rng, &a);
         let s = scalar($rng);
         let pa = <$T>::from_flat(&a);
         let pb = <$T>::from_flat(&b);
@@ -330,7 +358,7 @@ macro_rules! ops_intoflog {
         type T = IntOfLog<$P>;
         let ty = <T as Form>::name();
         let a = flat_of::<T>($rng);
-        let b = flat_of::<T>($rng);
+        let b = second_operand::<T>($rng, &a);
         let s = scalar($rng);
         let pa = T::from_flat(&a);
         let pb = T::from_flat(&b);
@@ -401,7 +429,7 @@ pub fn drive_ops(seed: u64, rounds: usize, sink: &mut Sink) -> usize {
         {
             let ty = "IntOfLogPoly4";
             let a = flat_of::<IntOfLogPoly4>(rng);
-            let b = if rng.below(8) == 0 { a.clone() } else { flat_of::<IntOfLogPoly4>(rng) };
+            let b = second_operand::<IntOfLogPoly4>(rng, &a);
             let s = scalar(rng);
             let pa = IntOfLogPoly4::from_flat(&a);
             let pb = IntOfLogPoly4::from_flat(&b);
@@ -595,8 +623,32 @@ macro_rules! pw_deriv {
 pub fn drive_pwops(seed: u64, rounds: usize, which: &str, sink: &mut Sink) -> usize {
     let mut rng = Rng::new(seed);
     let mut cov = OpCov(Default::default());
-    for _ in 0..rounds {
+    for round in 0..rounds {
         let rng = &mut rng;
+        if round == 0 {
+            // one function far beyond any plausible block / parallel-split size, with an awkward piece count
+            let n = 8193 + rng.below(3) as usize;
+            let p: Piecewise<Poly1> = Piecewise {
+                segments: (0..n).map(|i| Segment { end: i as f64 * 0.5, poly: Poly1([(i % 7) as f64 - 3.0, 1.0 + (i % 3) as f64]) }).collect(),
+            };
+            if which == "deriv" {
+                let alone: Vec<Vec<f64>> = p.segments.iter().map(|x| x.poly.derivative().flat()).collect();
+                sink.ev(pw_event("deriv", &p, 0.0, &p.derivative(), &alone));
+            } else {
+                let s = 3.0;
+                let alone: Vec<Vec<f64>> = p.segments.iter().map(|x| (x.poly * s).flat()).collect();
+                sink.ev(pw_event("mul", &p, s, &(p.clone() * s), &alone));
+                let mut q = p.clone();
+                q *= s;
+                sink.ev(pw_event("mul", &p, s, &q, &alone));
+                let alone: Vec<Vec<f64>> = p.segments.iter().map(|x| (-x.poly).flat()).collect();
+                sink.ev(pw_event("neg", &p, 0.0, &(-p.clone()), &alone));
+                let alone: Vec<Vec<f64>> = p.segments.iter().map(|x| { let mut t = x.poly; t.translate(s); t.flat() }).collect();
+                let mut q = p.clone();
+                q.translate(s);
+                sink.ev(pw_event("translate", &p, s, &q, &alone));
+            }
+        }
         if which == "deriv" {
             pw_deriv!(Poly0, rng, sink, cov);
             pw_deriv!(Poly1, rng, sink, cov);
@@ -668,7 +720,13 @@ macro_rules! logint_case {
         let f = Log(<$P>::from_flat($c));
         let integ = f.integral($knot);
         let indef = f.indefinite();
-        (integ.flat(), indef.flat(), integ.evaluate($a), integ.evaluate($b), integ.evaluate($knot.x), indef.evaluate($a), indef.evaluate($b))
+        disturb($a);
+        let fa = integ.evaluate($a);
+        disturb($b);
+        let fb = integ.evaluate($b);
+        disturb($knot.x);
+        let fk = integ.evaluate($knot.x);
+        (integ.flat(), indef.flat(), fa, fb, fk, indef.evaluate($a), indef.evaluate($b))
     }};
 }
 
@@ -681,6 +739,19 @@ pub fn drive_logint(seed: u64, rounds: usize, sink: &mut Sink) -> usize {
                 0 | 1 => (0..len).map(|_| rng.nice()).collect(),
                 2 | 3 => (0..len).map(|_| rng.float_exp(-4, 4)).collect(),
                 4 => vec![0.0; len], // the zero function
+                5 => {
+                    // inverse construction: choose the *result* with exact zeros / relations and derive the input from it,
+                    // in small integers so that everything is exact.  General degrees: p = q + q'.  Quartic: from (a,b,c,d,u).
+                    if len == 5 {
+                        let pick = |rng: &mut Rng| if rng.below(3) == 0 { 0.0 } else { rng.range(-4, 4) as f64 };
+                        let (a, b, cc, d) = (pick(&mut rng), pick(&mut rng), pick(&mut rng), pick(&mut rng));
+                        let u = match rng.below(4) { 0 => 0.0, 1 => 24.0 * d, 2 => -24.0 * d, _ => 24.0 * rng.range(-3, 3) as f64 };
+                        vec![-a, 2.0 * b - a, b - 3.0 * cc, 4.0 * d - cc, d - u / 24.0]
+                    } else {
+                        let q: Vec<f64> = (0..len).map(|_| if rng.below(3) == 0 { 0.0 } else { rng.range(-5, 5) as f64 }).collect();
+                        (0..len).map(|i| q[i] + if i + 1 < len { (i + 1) as f64 * q[i + 1] } else { 0.0 }).collect()
+                    }
+                }
                 _ => coeffs(&mut rng, len),
             };
             let knot = Knot { x: pos_point(&mut rng), y: if rng.below(3) == 0 { 0.0 } else { rng.float_exp(-6, 6) } };
@@ -709,7 +780,16 @@ pub fn drive_logint(seed: u64, rounds: usize, sink: &mut Sink) -> usize {
 // ===================================================================== C10 quartic form evaluation
 
 fn quartic_params(rng: &mut Rng) -> (f64, [f64; 4], f64) {
-    match rng.below(7) {
+    match rng.below(9) {
+        // exact relations between the fields (forms that `indefinite` produces for special inputs):
+        // u = 24 c4 (no quartic term), u = 0, u = -24 c4, k = -u, lanes equal
+        7 | 8 => {
+            let c4 = if rng.bool() { rng.nice() } else { rng.float_exp(-3, 3) };
+            let u = *rng.pick(&[24.0 * c4, 0.0, -24.0 * c4, c4]);
+            let k = *rng.pick(&[0.0, -u, 1.0, u]);
+            let c = [if rng.bool() { 0.0 } else { rng.nice() }, if rng.bool() { 0.0 } else { rng.nice() }, if rng.bool() { 0.0 } else { c4 }, c4];
+            (k, c, u)
+        }
         0 => {
             // unit lanes
             let mut c = [0.0; 4];
@@ -790,6 +870,9 @@ pub fn drive_quartic(seed: u64, n: usize, extra: &str, sink: &mut Sink) -> usize
             _ => 1.0 + (rng.unit() - 0.5) * 2f64.powi(-(rng.below(50) as i32)),
         };
         let f = IntOfLogPoly4 { k, coeffs: c, u };
+        if it % 2 == 0 {
+            disturb(v);
+        }
         let y = f.evaluate(v);
         if v != 1.0 {
             nontrivial += 1;
@@ -1018,6 +1101,16 @@ fn spline_ys(rng: &mut Rng, n: usize) -> Vec<f64> {
     let mut ys: Vec<f64> = Vec::with_capacity(n);
     let shape = rng.below(7);
     let mut y = y0;
+    if rng.below(8) == 0 {
+        // a plateau at level zero whose zeros carry random signs (secant slopes of +0.0 and -0.0), between two flanks
+        let mut v: Vec<f64> = vec![yscale];
+        for _ in 0..n.saturating_sub(2) {
+            v.push(if rng.bool() { 0.0 } else { -0.0 });
+        }
+        v.push(if rng.bool() { yscale } else { -yscale });
+        v.truncate(n);
+        return v;
+    }
     for i in 0..n {
         ys.push(y);
         let d = match shape {
@@ -1065,10 +1158,43 @@ pub fn drive_spline(seed: u64, n: usize, sink: &mut Sink) -> usize {
 
 // ===================================================================== C06 linear
 
+fn linear_event(ks: &[Knot], sink: &mut Sink) {
+    let len = ks.len();
+    let r = guarded(|| linear(ks));
+    let (ends, coef, pan, ts, fts) = match &r {
+        Ok(p) => {
+            let ends = ends_of(p);
+            let mut ts: Vec<f64> = ks.iter().map(|k| k.x).collect();
+            for w in ks.windows(2) {
+                ts.push(w[0].x / 2.0 + w[1].x / 2.0);
+            }
+            ts.push(ks[0].x - 1.0);
+            ts.push(ks[len - 1].x + 1.0);
+            let fts: Vec<f64> = ts.iter().map(|&t| p.evaluate(t)).collect();
+            (ends, p.segments.iter().map(|s| jbs(&s.poly.0)).collect::<Vec<_>>(), false, ts, fts)
+        }
+        Err(_) => (vec![], vec![], true, vec![], vec![]),
+    };
+    sink.ev(json!({"ev":"linear","knots":jknots(ks),"ends":jbs(&ends),"coef":coef,"panic":pan,"ts":jbs(&ts),"fts":jbs(&fts)}));
+}
+
 pub fn drive_linear(seed: u64, n: usize, sink: &mut Sink) -> usize {
     let mut rng = Rng::new(seed);
     let mut nontrivial = 0;
     let eps = f64::EPSILON;
+    // long inputs (beyond any plausible block size) that are sorted except for ONE descent, at every position
+    for &len in &[33usize, 40, 65, 130] {
+        for p in 1..len {
+            if len == 130 && p % 3 != 0 && p % 32 != 0 {
+                continue;
+            }
+            let ks: Vec<Knot> = (0..len)
+                .map(|i| Knot { x: if i == p { i as f64 - 2.5 } else { i as f64 }, y: ((i * 7) % 5) as f64 })
+                .collect();
+            linear_event(&ks, sink);
+            nontrivial += 1;
+        }
+    }
     for it in 0..n {
         let len = 2 + rng.size(6, 28, 5) as usize;
         let base = *rng.pick(&[0.0, 0.25, 0.5, 1.0, -1.0, 1e6, -3.0, 1e-3]);
@@ -1076,7 +1202,7 @@ pub fn drive_linear(seed: u64, n: usize, sink: &mut Sink) -> usize {
         let mut ks: Vec<Knot> = Vec::with_capacity(len);
         let regular = it % 3 == 0;
         for _ in 0..len {
-            ks.push(Knot { x, y: if rng.below(4) == 0 { rng.nice() } else { rng.float_exp(-4, 4) } });
+            ks.push(Knot { x, y: match rng.below(8) { 0 | 1 => rng.nice(), 2 => 0.0, 3 => -0.0, _ => rng.float_exp(-4, 4) } });
             let gap = if regular {
                 match rng.below(4) {
                     0 => eps,
@@ -1340,6 +1466,13 @@ macro_rules! serde_form {
 
 pub fn drive_serde(seed: u64, rounds: usize, sink: &mut Sink) -> usize {
     let mut rng = Rng::new(seed);
+    // two functions with more segments than any plausible pre-allocation cap or chunk size
+    for &k in &[4097usize, 8200] {
+        let pw: Piecewise<Poly1> = Piecewise {
+            segments: (0..k).map(|i| Segment { end: i as f64, poly: Poly1([serde_number(&mut rng, true), i as f64]) }).collect(),
+        };
+        serde_all::<Piecewise<Poly1>>("Piecewise<Poly1>", &pw, &|x: &Piecewise<Poly1>| (vec![3; x.segments.len()], pw_flat(x)), sink);
+    }
     for _ in 0..rounds {
         let rng = &mut rng;
         {
